@@ -77,11 +77,11 @@ const (
 type ReplyAct int
 
 const (
-	RNow       ReplyAct = iota // reply
-	RFail                      // no reply: the client's Read fails with Kind
-	RPartial                   // PartialN bytes of the reply, then Read fails with Kind
-	RThenFail                  // full reply, then the next Read fails with Kind ("server closes right after replying")
-	RSilent                    // never replies (the client's Read blocks until the connection is closed)
+	RNow      ReplyAct = iota // reply
+	RFail                     // no reply: the client's Read fails with Kind
+	RPartial                  // PartialN bytes of the reply, then Read fails with Kind
+	RThenFail                 // full reply, then the next Read fails with Kind ("server closes right after replying")
+	RSilent                   // never replies (the client's Read blocks until the connection is closed)
 )
 
 // ReqPlan is the scripted fate of the j-th request written on a connection.
@@ -333,9 +333,9 @@ type Conn struct {
 
 type reply struct {
 	silent bool
-	data  []byte
-	fault Kind
-	chunk int
+	data   []byte
+	fault  Kind
+	chunk  int
 }
 
 func (c *Conn) reqPlan(j int) ReqPlan {
